@@ -643,11 +643,8 @@ func (v Value) export() interface{} {
 			result := make([]interface{}, 0)
 			lengthValue := obj.get(propertyLength)
 			length := lengthValue.value.(uint32)
-			kind := reflect.Invalid
-			keyKind := reflect.Invalid
-			elemKind := reflect.Invalid
 			state := 0
-			var t reflect.Type
+			var t, common reflect.Type
 			for index := range length {
 				name := strconv.FormatInt(int64(index), 10)
 				if !obj.hasProperty(name) {
@@ -657,31 +654,19 @@ func (v Value) export() interface{} {
 
 				t = reflect.TypeOf(value)
 
-				var k, kk, ek reflect.Kind
-				if t != nil {
-					k = t.Kind()
-					switch k {
-					case reflect.Map:
-						kk = t.Key().Kind()
-						fallthrough
-					case reflect.Array, reflect.Chan, reflect.Ptr, reflect.Slice:
-						ek = t.Elem().Kind()
-					}
-				}
-
+				// The elements share a slice type only if their Go types are identical
+				// (comparing kinds alone lets [][]int64 and [][]string through).
 				if state == 0 {
-					kind = k
-					keyKind = kk
-					elemKind = ek
+					common = t
 					state = 1
-				} else if state == 1 && (kind != k || keyKind != kk || elemKind != ek) {
+				} else if state == 1 && t != common {
 					state = 2
 				}
 
 				result = append(result, value)
 			}
 
-			if state != 1 || kind == reflect.Interface || t == nil {
+			if state != 1 || t == nil || t.Kind() == reflect.Interface {
 				// No common type
 				return result
 			}
